@@ -182,4 +182,39 @@ theorem runCore_execd (p : Program) (ff0 : Bool) (hwf : wf p = true) :
   rw [runCore_fst, ← mainPhase_execd p ff0, ← hl]
   split <;> simp
 
+/-- `runCore` when no cleanup is registered (used to evaluate concrete witnesses: the cleanup loop is defined
+by well-founded recursion and does not reduce by `decide`) -/
+def runCoreNC (p : Program) (ff0 : Bool) : RS × Bool :=
+  let (s1, ok1) := runStage p.setUp false (initRS p ff0)
+  if ok1 then
+    let (s2, ok2) := runStage p.body p.xfailDeco s1
+    let (s3, ok3) := runStage p.tearDown false s2
+    if s3.ff then (got s3 forcedFailure, false) else (s3, ok2 && ok3)
+  else
+    (s1, false)
+
+theorem runCore_noCleanups (p : Program) (ff0 : Bool) (h : (mainPhase p ff0).stack = []) :
+    runCore p ff0 = runCoreNC p ff0 := by
+  unfold runCore runCoreNC
+  unfold mainPhase at h
+  have hok1 := setUp_ok_eq p (initRS p ff0)
+  generalize runStage p.setUp false (initRS p ff0) = r1 at hok1 h
+  obtain ⟨s1, ok1⟩ := r1
+  simp only at hok1 h ⊢
+  subst hok1
+  cases hsok : setUpOk p with
+  | false =>
+    simp only [hsok, Bool.false_eq_true, if_false] at h ⊢
+    rw [runCleanups_nil _ h]
+  | true =>
+    simp only [hsok, if_true] at h ⊢
+    generalize runStage p.body p.xfailDeco s1 = r2 at h
+    obtain ⟨s2, ok2⟩ := r2
+    simp only at h ⊢
+    generalize runStage p.tearDown false s2 = r3 at h
+    obtain ⟨s3, ok3⟩ := r3
+    simp only at h ⊢
+    rw [runCleanups_nil _ h]
+    simp
+
 end TTV.Run
